@@ -438,6 +438,7 @@ def main():
     seed = int(os.environ.get('VERIF_SEED', '0') or 0)
     if a.replay:
         sys.exit(replay(a.replay))
+    os.environ['VERIF_TIER'] = a.tier        # contracts may enumerate larger shapes in the thorough tier
     try:
         rc = run_property(a.prop, a.tier, seed, a.only)
     except Exception:
